@@ -17,6 +17,8 @@ import (
 	rtcm "github.com/goblimey/go-ntrip/rtcm/handler"
 	"github.com/goblimey/go-tools/dailylogger"
 	reporter "github.com/goblimey/go-tools/statusreporter"
+
+	"github.com/goblimey/go-ntrip/verifhook"
 )
 
 // Terminology:
@@ -246,11 +248,13 @@ func handleClientMessages(server, client net.Conn, id int) {
 
 			// Send contents of the buffer to the RTCM handler.
 			for i := 0; i < n; i++ {
+				verifhook.At("c.tee", int(data[i]))
 				byteChan <- data[i]
 			}
 
 			// Hang onto the buffer for reporting until the next one arrives
 			reportFeed.RecordClientBuffer(&data, uint64(id), n)
+			verifhook.At("c.write", n)
 			server.Write(data[:n])
 		}
 		if err != nil && err == io.EOF { // INCONSISTENT?
@@ -270,6 +274,7 @@ func handleServerMessages(server, client net.Conn, id int) {
 			//fmt.Fprintf("From Server:\n%s\n",hex.EncodeToString(data[:n]))
 			// Hang onto the buffer for reporting until the next one arrives
 			reportFeed.RecordServerBuffer(&data, uint64(id), n)
+			verifhook.At("s.write", n)
 			client.Write(data[:n])
 		}
 		if err != nil && err != io.EOF { // INCONSISTENT?
